@@ -6,7 +6,7 @@ from vk.ob import pick
 
 # tag pools --------------------------------------------------------------------------------------
 GEN = (["e", "x"], ["é", "v"], ["xx", "not indexed"], ["e"], ["e", ""], ["e", "a\x00b"], ["t", 5], ["expiration", "50"],
-       ["delegation", "zz"], ["p", "y"])                       # general: indexable or not, bare, empty, NUL, int, multi-byte
+       ["delegation", "zz"], ["p", "y"], ["t", 5.0], ["t", True])                       # general: indexable or not, bare, empty, NUL, int, multi-byte
 DTAGS = (None, ["d", "a"], ["d", "ab"], ["d"], ["d", ""], ["d", "é"])   # None = no d tag
 REFS = (["e", W.IDS[0]], ["e", W.IDS[1]], ["e", "zz"], ["e"], ["p", W.IDS[0]], ["e", W.IDS[0].upper()])
 SCENARIOS = ("regular", "replaceable", "param-replaceable", "deletion", "duplicate-and-ephemeral")
